@@ -11,7 +11,7 @@ use crate::{
     session::SessionId,
 };
 
-use super::{xmlns, ClientMsg, ReadError, ReadXml, ServerMsg, WriteError, WriteXml};
+use super::{read_text, xmlns, ClientMsg, ReadError, ReadXml, ServerMsg, WriteError, WriteXml};
 
 #[derive(Debug, Clone, PartialEq, Eq)]
 pub(crate) struct ServerHello {
@@ -51,7 +51,7 @@ impl ReadXml for ServerHello {
                         && session_id.is_none() =>
                 {
                     tracing::debug!(?tag);
-                    let span = reader.read_text(tag.to_end().name())?;
+                    let span = read_text(reader, tag.to_end().name())?;
                     tracing::debug!(?span, "trying to parse session_id");
                     session_id = Some(span.trim().parse()?);
                     tracing::debug!(?session_id);
